@@ -869,6 +869,11 @@ func filterPhone2numeric(in *Value, param *Value) (*Value, *Error) {
 func filterPluralize(in *Value, param *Value) (*Value, *Error) {
 	if in.IsNumber() {
 		// Works only on numbers
+		// (the value is singular if it is 1 - not if it merely truncates to 1: 1.5 votes)
+		singular := in.Integer() == 1
+		if in.IsFloat() {
+			singular = in.Float() == 1
+		}
 		if param.Len() > 0 {
 			endings := strings.Split(param.String(), ",")
 			if len(endings) > 2 {
@@ -879,18 +884,18 @@ func filterPluralize(in *Value, param *Value) (*Value, *Error) {
 			}
 			if len(endings) == 1 {
 				// 1 argument
-				if in.Integer() != 1 {
+				if !singular {
 					return AsValue(endings[0]), nil
 				}
 			} else {
-				if in.Integer() != 1 {
+				if !singular {
 					// 2 arguments
 					return AsValue(endings[1]), nil
 				}
 				return AsValue(endings[0]), nil
 			}
 		} else {
-			if in.Integer() != 1 {
+			if !singular {
 				// return default 's'
 				return AsValue("s"), nil
 			}
